@@ -160,6 +160,12 @@ func main() {
 		ck.Run(c)
 		c.enc.Encode(c.Sum)
 		w.Flush()
+	case "fresh":
+		// one execution in a brand-new process (C08 histories): worker fresh <cfg> <init> <program>
+		cfg, in := pxConfigByName(os.Args[2]), pxInitByID(os.Args[3])
+		ref := refRun(os.Args[4], in)
+		out := pxExec(cfg, os.Args[4], in, &ref, false, nil, nil)
+		json.NewEncoder(os.Stdout).Encode(freshResult{Digest: digest(&out), Class: out.Class, Cycles: out.Cycles})
 	case "px":
 		// debugging aid: worker px <init> <program with \n escapes> [cfg-prefix]
 		in := pxInitByID(os.Args[2])
